@@ -35,11 +35,15 @@ var NotApplicable = [][2]string{}
 // Pending: registered properties whose check is not claimed in MANIFEST.json yet.
 var Pending = map[string]bool{}
 
+// EngineInstrument lists, per engine, the /repo files whose mutex acquisitions and releases are turned
+// into scheduling points at build time (kit/instrument; compile-time overlay, /repo is not modified).
+var EngineInstrument = map[string][]string{}
+
 // Hooks is the MANIFEST.hooks object.
 var Hooks = map[string]any{
 	"guard":            "verif",
 	"enable":           "go build tag: engines are built with `go1.26.8 test -c -tags verif` against /repo (replace directive)",
 	"baseline_off_cmd": "cd /repo && GOFLAGS=-mod=mod GOPROXY=off GOSUMDB=off go test -vet=off -count=1 -timeout 25m ./...",
-	"source_commits":   []string{"42fbbfe", "4e19f92", "0a22d76", "5587c8f", "d938b0a", "1855161", "bd2bd85"},
+	"source_commits":   []string{"42fbbfe", "4e19f92", "0a22d76", "5587c8f", "d938b0a", "1855161", "bd2bd85", "6cf8b72"},
 	"add_only":         true,
 }
